@@ -167,10 +167,19 @@ def region(fname, xb, yb, f):
     """coarse region of a failing input (keeps known-finding classes narrow and stable)"""
     x = abs(flt.bits2frac(xb, f))
     y = abs(flt.bits2frac(yb, f))
-    if x == 1:
-        return "re-one"
+    def other(t):
+        # the open findings at the lines re = +-1 / im = +-1 need the other component to be subnormal (asin family) or
+        # to have an underflowing square (atanh, atan, log1p); anything else on those lines is a class of its own
+        if fname in ("asin", "acos", "acosh", "asinh"):
+            return "+other-subnormal" if 0 < t < f.smallest_normal else ""
+        if fname in ("atanh", "atan", "log1p"):
+            return "+other-sq-underflows" if 0 < t and t * t <= 4 * f.smallest_normal else ""
+        return ""
+
+    if x == 1 and not (fname == "log1p" and not (xb & f.sign_mask)):  # log1p is singular at -1 only
+        return "re-one" + other(y)
     if y == 1:
-        return "im-one"
+        return "im-one" + other(x)
     sx, sy = 0 < x < f.smallest_normal, 0 < y < f.smallest_normal
     if sx and sy:
         return "both-subnormal"
@@ -472,7 +481,7 @@ def run(ctx):
         "NpVec interpreter = NumPy-target semantics (cross-checked against the exec'd NumPy-target function in C02)",
         "rate verdicts are statistical (sampled)",
     ]
-    n1, n4, K, R, nb = (700, 900, 48, 3, 0) if q else (40000, 40000, 512, 16, 2)
+    n1, n4, K, R, nb = (2800, 3200, 96, 4, 0) if q else (40000, 40000, 512, 16, 2)
     tasks = []
     for fb in (32, 64):
         for k, fn in enumerate(FUNCS):
